@@ -46,6 +46,7 @@ type Engine struct {
 	stopOnViolation bool
 	mergeStats int
 	tier string
+	usedModels bool
 	uniq map[string]int
 	ifShapes map[*ssa.If]*ifShape
 	noIfConv bool
@@ -931,6 +932,28 @@ func (e *Engine) invoke(s *State, f *Frame, fnv Value, method *types.Func, args 
 			e.errf("invoke on %T", fnv)
 		}
 		if iv.T == nil {
+			if method.Pkg() != nil && isNoopPkg(method.Pkg().Path()) {
+				res := method.Type().(*types.Signature).Results()
+				var rv Value
+				switch res.Len() {
+				case 0:
+				case 1:
+					rv = e.zero(res.At(0).Type())
+				default:
+					tv := make(TupleV, res.Len())
+					for i := range tv {
+						tv[i] = e.zero(res.At(i).Type())
+					}
+					rv = tv
+				}
+				if retIdx >= 0 {
+					f.locals[retIdx] = rv
+				}
+				if advance {
+					f.ip++
+				}
+				return
+			}
 			e.fail(s, "panic", "nil interface method call "+method.Name())
 		}
 		// harness fakes may be registered natively
@@ -974,6 +997,16 @@ func (e *Engine) invoke(s *State, f *Frame, fnv Value, method *types.Func, args 
 		}
 		fn = fv.Fn
 		bindings = fv.Bindings
+	}
+	// redirects to Go models in verifrt
+	if to, ok := redirects[fn.String()]; ok {
+		rt := e.prog.ImportedPackage("github.com/IrineSistiana/mosproxy/internal/verifrt")
+		if rt == nil || rt.Func(to) == nil {
+			e.errf("redirect target verifrt.%s missing", to)
+		}
+		fn = rt.Func(to)
+		bindings = nil
+		e.usedModels = true
 	}
 	// intrinsics / models
 	if h := e.lookupIntrinsic(fn); h != nil {
